@@ -276,6 +276,15 @@ def raw_cases(rng, count):
             out.append(dict(kind="raw-graph", name="raw-multidi/parallel/%d" % k, rxns=rx, iso=[], view="bip_str" if k % 2 else "bip_int",
                             mut=["none"], pick=k, und="multidi", par=par))
             k += 1
+    # >= 10 species / reactions: two-digit node identifiers ("10" < "2" once the label falls back to str(node))
+    big = G.net_from_strings(["S%d >> S%d" % (i, i + 1) for i in range(1, 12)] + ["S12 >> 2 S1"], "raw-graph")["rxns"]
+    for mu in ("none", "no-label", "int-label", "no-kind", "reversed", "no-stoich"):
+        for view, und in (("bip_int", None), ("bip_str", None), ("bip_int", "multi")):
+            c = dict(kind="raw-graph", name="raw-big/%s/%s/%s/%d" % (mu, view, und or "digraph", k), rxns=big, iso=[], view=view, mut=[mu], pick=k)
+            if und:
+                c["und"] = und
+            out.append(c)
+            k += 1
     pool = [(l, r) for l, r in G.alphabet_reactions()]
     for j in range(count):
         nr = rng.randint(1, 4)
